@@ -484,7 +484,7 @@ func c18ReachesDir(sc *c18Scenario, id int) bool {
 func runFiles(cfg Cfg) {
 	s := NewStream(cfg.Out, "files")
 	defer s.Close()
-	s.Rule = "scenario matrix on the real kernel (sizes 0/1/4KiB/1MiB[/5MiB]; dst missing, existing, same path, ./ spelling, symlink (chain) to src, hard link of src, symlink to other/dangling/loop, directory, parent missing, parent a regular file; src missing; CopyFile and MoveFile on one file system and across /dev/shm incl. cross-device symlink back to src) + random small file systems; non-trivial = destination aliases the source's inode, or MoveFile falls back to copy+remove, or the call fails after the source was opened (distinct by label|size|outcome)"
+	s.Rule = "scenario matrix on the real kernel (sizes 0/1/4KiB/1MiB/1MiB+3[/5MiB/4MiB+1/2MiB+4098]; dst missing, existing, same path, ./ spelling, symlink (chain) to src, hard link of src, symlink to other/dangling/loop, directory, parent missing, parent a regular file; src missing; CopyFile and MoveFile on one file system and across /dev/shm incl. cross-device symlink back to src) + random small file systems; non-trivial = destination aliases the source's inode, or MoveFile falls back to copy+remove, or the call fails after the source was opened (distinct by label|size|outcome)"
 	rng := NewRng(cfg.Seed)
 
 	w := &c18World{}
@@ -507,9 +507,9 @@ func runFiles(cfg Cfg) {
 		s.Count("cross-device.unavailable")
 	}
 
-	sizes := []int{0, 1, 4096, 1 << 20}
+	sizes := []int{0, 1, 4096, 1 << 20, 1<<20 + 3}
 	if cfg.Thorough() {
-		sizes = append(sizes, 5<<20)
+		sizes = append(sizes, 5<<20, 4<<20+1, 2<<20+4098)
 	}
 	scenarios := c18Matrix(sizes, w.cross, cfg.Thorough())
 	nMatrix := len(scenarios)
@@ -532,6 +532,9 @@ func runFiles(cfg Cfg) {
 					}
 				}
 				b[0] = byte(ino + 1)
+				for k := 1; k <= 4 && k < size; k++ {
+					b[size-k] |= 0x40 // a non-zero tail, so an uncopied last word is visible
+				}
 				// sparse-looking contents: a zero tail (last block(s) all zero), or zero everywhere but byte 0
 				switch (idx + ino) % 5 {
 				case 1:
